@@ -288,6 +288,22 @@ func (en *Engine) verifyUnit(u *UnitInfo) *UnitResult {
 				tw.Expect = "sat"
 			}
 		}
+		// cover[label] e: some path must end in a state satisfying e (reachability behind the assumptions; grouped like the twins:
+		// it is a vacuity alarm only when no path reaches it)
+		for i, c := range spec.clauses("cover") {
+			nUnd := len(x.undecided)
+			npc := len(st.pc)
+			g := x.cxBool(st, c.Expr, x.entry, binds)
+			if len(x.undecided) > nUnd {
+				// mentions a local that is not bound on this path
+				x.undecided = x.undecided[:nUnd]
+				st.pc = st.pc[:npc]
+				g = "false"
+			}
+			if tw := x.oblige(st, "twin", "twin[cover["+clauseLabel(c, i)+"]]", sNot(g), nil); tw != nil {
+				tw.Expect = "sat"
+			}
+		}
 		for _, ch := range u.Children {
 			if ch.Spec == nil {
 				continue
